@@ -429,7 +429,7 @@ def explore(ctx):
             sts = []
             st = p.new(path, None)
             while st is not None and len(sts) < (40 if ctx.quick() and len(text) > (24 if arg in 'ac' else 8) else 1500):
-                if len(text) <= (24 if arg in 'ac' else 8) or rnd.random() < (0.15 if ctx.quick() else 0.5):
+                if len(text) <= (24 if arg in 'ac' else 8) or (st['pos'] == 0 and st['regex'] == 0) or rnd.random() < (0.15 if ctx.quick() else 0.5):
                     sts.append(st)
                 st = p.advance(path, st)
             for st in sts:
